@@ -421,6 +421,142 @@ def simplify(ir):
     return ir
 
 
+IMMUTABLE = (int, float, complex, str, bytes, bool, tuple, frozenset, type(None))
+
+
+def class_shared_attrs(cls):
+    """class-level attributes holding a mutable object that all instances share (found by
+    introspection): dicts, lists, sets, arbitrary objects — not the `parameters` help table,
+    not functions/properties/classes, not immutable values"""
+    import types
+    import numpy as np
+    from exactpack.base import ExactSolver
+    out = {}
+    for k in cls.__mro__:
+        if k in (object, ExactSolver):
+            continue
+        for n, v in vars(k).items():
+            if n.startswith('__') or n == 'parameters' or n in out:
+                continue
+            if isinstance(v, IMMUTABLE + (np.generic,)) or callable(v) or isinstance(v, (property, staticmethod, classmethod,
+                                                                                      types.ModuleType)):
+                continue
+            out[n] = k.__name__
+    return out
+
+
+class ClassExtractor(Extractor):
+    """effect program of `Class._run` over the class-level mutable attributes reached through `self`"""
+
+    def __init__(self, cls):
+        Extractor.__init__(self)
+        self.cls = cls
+        self.attrs = class_shared_attrs(cls)
+        # an attribute the constructor *rebinds* on the instance is per-instance afterwards
+        self.rebound = set()
+        for k in cls.__mro__:
+            fn = vars(k).get('__init__')
+            if fn is None or not hasattr(fn, '__code__'):
+                continue
+            try:
+                tree = ast.parse(textwrap.dedent(inspect.getsource(fn)))
+            except Exception:
+                continue
+            for node in ast.walk(tree):
+                if isinstance(node, (ast.Assign, ast.AnnAssign)):
+                    for t in (node.targets if isinstance(node, ast.Assign) else [node.target]):
+                        if isinstance(t, ast.Attribute) and isinstance(t.value, ast.Name) and t.value.id == 'self':
+                            self.rebound.add(t.attr)
+
+        # a shared object matters only if some method of the class mutates it (a list used as a
+        # read-only parameter default is shared but constant)
+        MUT = {'update', 'append', 'extend', 'insert', 'pop', 'remove', 'clear', 'setdefault', 'add', 'discard', 'sort',
+               'reverse', 'popitem', '__setitem__'}
+        mutated = set()
+        for k in cls.__mro__:
+            if k is object:
+                continue
+            try:
+                ctree = ast.parse(textwrap.dedent(inspect.getsource(k)))
+            except Exception:
+                continue
+            for node in ast.walk(ctree):
+                tgt = []
+                if isinstance(node, ast.Assign):
+                    tgt = node.targets
+                elif isinstance(node, (ast.AugAssign, ast.AnnAssign)):
+                    tgt = [node.target]
+                for t in tgt:
+                    # self.attr[...] = v   /  self.attr.x = v
+                    if isinstance(t, (ast.Subscript, ast.Attribute)) and self._is_self_attr(t.value):
+                        mutated.add(t.value.attr)
+                    if isinstance(node, ast.AugAssign) and self._is_self_attr(t):
+                        mutated.add(t.attr)
+                if isinstance(node, ast.Call) and isinstance(node.func, ast.Attribute) and self._is_self_attr(node.func.value):
+                    a = node.func.value.attr
+                    v = None
+                    for kk in cls.__mro__:
+                        if a in vars(kk):
+                            v = vars(kk)[a]
+                            break
+                    if isinstance(v, (dict, list, set)):
+                        if node.func.attr in MUT:
+                            mutated.add(a)
+                    elif v is not None:
+                        mutated.add(a)          # any method of an arbitrary shared object may change it
+        self.attrs = {a: o for a, o in self.attrs.items() if a in mutated}
+
+    @staticmethod
+    def _is_self_attr(e):
+        return isinstance(e, ast.Attribute) and isinstance(e.value, ast.Name) and e.value.id == 'self'
+
+    def aloc(self, a):
+        k = 'class.%s.%s' % (self.attrs[a], a)
+        if k not in self.locs:
+            self.locs[k] = len(self.locs)
+        return self.locs[k]
+
+    def is_shared(self, e):
+        return isinstance(e, ast.Attribute) and isinstance(e.value, ast.Name) and e.value.id == 'self' \
+            and e.attr in self.attrs and e.attr not in self.rebound
+
+    def expr(self, e, ctx):
+        if self.is_shared(e) and isinstance(e.ctx, ast.Load):
+            return ('r', self.aloc(e.attr))
+        return Extractor.expr(self, e, ctx)
+
+    def target(self, t, value, ctx, glob):
+        if self.is_shared(t):
+            return ('w', self.aloc(t.attr))
+        if isinstance(t, ast.Subscript) and self.is_shared(t.value):
+            return self.seq([self.expr(t.slice, ctx), ('r', self.aloc(t.value.attr)), ('w', self.aloc(t.value.attr))])
+        return Extractor.target(self, t, value, ctx, glob)
+
+    def resolve(self, f, ctx):
+        # self.method(...) -> the method found through the MRO of the class under analysis
+        if isinstance(f, ast.Attribute) and isinstance(f.value, ast.Name) and f.value.id == 'self':
+            for k in self.cls.__mro__:
+                if f.attr in vars(k) and hasattr(vars(k)[f.attr], '__code__'):
+                    try:
+                        m = self.mod(k.__module__)
+                    except Exception:
+                        return None
+                    if k.__name__ in m.methods and f.attr in m.methods[k.__name__]:
+                        return (m, k.__name__ + '.' + f.attr)
+                    return None
+            return None
+        return Extractor.resolve(self, f, ctx)
+
+    def run_program(self):
+        for k in self.cls.__mro__:
+            if '_run' in vars(k):
+                m = self.mod(k.__module__)
+                if k.__name__ in m.methods and '_run' in m.methods[k.__name__]:
+                    return simplify(self.inline(m, k.__name__ + '._run', ()))
+                return ('skip',)
+        return ('skip',)
+
+
 class EffectsModel(object):
     def __init__(self, name='Effects'):
         self.name = name
@@ -430,6 +566,48 @@ class EffectsModel(object):
             m = ex.mod(mod)
             ir = simplify(ex.inline(m, fn, ()))
             self.programs.append((mod.split('.')[-2] + '_' + fn.replace('.', '_'), mod + ':' + fn, ir))
+        # `_run` of every solver class that has class-level mutable attributes: a call must not
+        # read state that another instance may have written
+        import os
+        import sys
+        sys.path.insert(0, os.path.dirname(os.path.dirname(os.path.abspath(__file__))))
+        from harness import catalog
+        self.class_attrs = {}
+        seen = set()
+        for path, cls in sorted(catalog.discover().items()):
+            try:
+                cx = ClassExtractor(cls)
+            except Exception:
+                continue
+            if not cx.attrs:
+                continue
+            owner = next((k for k in cls.__mro__ if '_run' in vars(k)), None)
+            if owner is None or owner in seen:
+                continue
+            seen.add(owner)
+            try:
+                ir = cx.run_program()
+            except Exception as e_:
+                ex.notes.append('class %s: %s' % (path, e_))
+                continue
+            base = len(ex.locs)
+            # re-index the class extractor's locations after the module-level ones
+            remap = {}
+            for kname, i in sorted(cx.locs.items(), key=lambda kv: kv[1]):
+                if kname not in ex.locs:
+                    ex.locs[kname] = len(ex.locs)
+                remap[i] = ex.locs[kname]
+
+            def re_ix(t):
+                if t[0] in ('r', 'w'):
+                    return (t[0], remap[t[1]])
+                if t[0] == 'wc':
+                    return ('wc', remap[t[1]], t[2])
+                if t[0] == 'iteEq':
+                    return ('iteEq', remap[t[1]], t[2], re_ix(t[3]), re_ix(t[4]))
+                return (t[0],) + tuple(re_ix(x) for x in t[1:])
+            self.class_attrs[owner.__name__] = sorted(cx.attrs)
+            self.programs.append(('run_' + owner.__name__, path.split(':')[0] + ':' + owner.__name__ + '._run', re_ix(ir)))
         self.locs = dict(ex.locs)
         self.notes = ex.notes
 
@@ -451,4 +629,5 @@ class EffectsModel(object):
         return {'name': self.name, 'source': 'AST of the modules with `global` declarations', 'params': [], 'pvars': [],
                 'tvar': None, 'fields': [], 'conds': {}, 'leaves': [], 'consts': {},
                 'locs': self.locs, 'programs': [(n, s) for n, s, _ in self.programs], 'notes': self.notes,
+                'class_attrs': self.class_attrs,
                 'ir': {n: ir for n, _, ir in self.programs}}
